@@ -10,19 +10,28 @@
 
 use std::sync::atomic::{AtomicU64, AtomicU8, Ordering as StdOrdering};
 
-/// simulated CPU: bit 0 = avx2, bit 1 = sse4.2
+/// simulated CPU: bit 0 = avx2, bit 1 = sse4.2, bit 2 = avx
 static CPU: AtomicU8 = AtomicU8::new(0);
+
+/// Does the simulated CPU have `feature`? (any feature name the subject may ask about)
+pub fn cpu_has(feature: &str) -> bool {
+    let cpu = CPU.load(StdOrdering::Relaxed);
+    match feature {
+        "avx2" => cpu & 1 != 0,
+        "sse4.2" | "sse4.1" | "ssse3" | "sse3" | "popcnt" => cpu & 2 != 0,
+        "avx" => cpu & 4 != 0,
+        "sse2" | "sse" => true,
+        _ => false,
+    }
+}
 static EXECUTIONS: AtomicU64 = AtomicU64::new(0);
 static DISPATCHES: AtomicU64 = AtomicU64::new(0);
 static BACKEND_HITS: [AtomicU64; 3] = [AtomicU64::new(0), AtomicU64::new(0), AtomicU64::new(0)];
 
 /// Shadows std's macro inside the included source: answers from the simulated CPU.
 macro_rules! is_x86_feature_detected {
-    ("avx2") => {
-        crate::CPU.load(std::sync::atomic::Ordering::Relaxed) & 1 != 0
-    };
-    ("sse4.2") => {
-        crate::CPU.load(std::sync::atomic::Ordering::Relaxed) & 2 != 0
+    ($f:tt) => {
+        crate::cpu_has($f)
     };
 }
 
@@ -157,11 +166,13 @@ fn dispatched_call(which: usize) {
 fn main() {
     let args: Vec<String> = std::env::args().collect();
     if args.len() < 4 {
-        eprintln!("usage: rtloom <avx2|sse42|none> <threads> <calls> [--out json]");
+        eprintln!("usage: rtloom <avx2|avx|sse42|none> <threads> <calls> [--out json]");
         std::process::exit(2);
     }
     let (cpu_bits, expect_id) = match args[1].as_str() {
-        "avx2" => (3u8, 1u8),
+        "avx2" => (7u8, 1u8),
+        // Sandy-Bridge-like: AVX and SSE4.2 but no AVX2
+        "avx" => (6, 2),
         "sse42" => (2, 2),
         "none" => (0, 3),
         _ => {
